@@ -211,7 +211,7 @@ def run_bounded(bid, tier='quick', repo='/repo', extra_args=None):
                 res['failure_count'] = res.get('failure_count', 0) + len(ub)
                 res['miri'] = dict(status='violation', report=ub[:5])
             elif 'miri histories done' in txt and mq.returncode == 0:
-                res['miri'] = dict(status='ok', histories='12 fixed histories x 2 buffer shapes, interpreted without undefined behaviour')
+                res['miri'] = dict(status='ok', histories='8 fixed histories x 2 buffer shapes, interpreted without undefined behaviour')
             else:
                 res['miri'] = dict(status='undecided', note=txt[-800:])
     res['status'] = 'violation' if res.get('failure_count') else ('undecided' if ((res.get('miri') or {}).get('status') == 'undecided' or res.get('harness_problems')) else 'ok')
